@@ -80,7 +80,7 @@ func (c *mcase) applies(pt string) bool {
 	case "hubtwo":
 		return pt == "hub-two"
 	}
-	if strings.HasPrefix(pt, "hub-") {
+	if strings.HasPrefix(pt, "hub") {
 		return false
 	}
 	if pt == "nochan" && (c.NeedsCh || c.NeedsLocked > 0 || c.NeedsSubs > 0) {
@@ -385,6 +385,61 @@ func proposalCases() (out []mcase) {
 						return p
 					}})
 			}
+		}
+	}
+	return out
+}
+
+// twoAssetProposalCases: sub-channel and virtual channel proposals for a victim whose ledger channel
+// with M is over TWO assets (point open2-v1): the funds exceed the parent's in the first resp. the last asset.
+func twoAssetProposalCases() (out []mcase) {
+	set2 := func(b *client.BaseChannelProposal, r0, r1 []int64) {
+		b.InitBals = mAlloc2(r0, r1)
+		b.FundingAgreement = b.InitBals.Balances.Clone()
+	}
+	type member struct {
+		Name   string
+		R0, R1 []int64
+	}
+	for _, sender := range []string{"M", "S"} {
+		sender := sender
+		for _, m := range []member{
+			{"base", []int64{4, 4}, []int64{1, 1}},
+			{"funds-above-parent-own-asset0", []int64{4, 12}, []int64{1, 1}},
+			{"funds-above-parent-hub-asset0", []int64{12, 4}, []int64{1, 1}},
+			{"funds-above-parent-own-asset1", []int64{1, 1}, []int64{4, 12}},
+			{"funds-above-parent-hub-asset1", []int64{1, 1}, []int64{12, 4}},
+		} {
+			m := m
+			c := mcase{Name: "virtual2/" + m.Name, Cat: "proposal", Sender: sender, Mut: m.Name != "base", Pts: []string{"open2-v1"},
+				Build: func(sc *mScene) wire.Msg {
+					p := sc.baseVirtualProp(sc.id(sender))
+					set2(p.Base(), m.R0, m.R1)
+					return p
+				}}
+			if !c.Mut {
+				c.Control = func(sc *mScene) bool { return sc.led != nil }
+			}
+			out = append(out, c)
+		}
+		for _, m := range []member{
+			{"base", []int64{2, 4}, []int64{1, 1}},
+			{"funds-above-parent-0-asset0", []int64{12, 4}, []int64{1, 1}},
+			{"funds-above-parent-1-asset0", []int64{2, 12}, []int64{1, 1}},
+			{"funds-above-parent-0-asset1", []int64{1, 1}, []int64{12, 4}},
+			{"funds-above-parent-1-asset1", []int64{1, 1}, []int64{2, 12}},
+		} {
+			m := m
+			c := mcase{Name: "sub2/" + m.Name, Cat: "proposal", Sender: sender, Mut: m.Name != "base", Pts: []string{"open2-v1"},
+				Build: func(sc *mScene) wire.Msg {
+					p := sc.baseSubProp(sc.id(sender))
+					set2(p.Base(), m.R0, m.R1)
+					return p
+				}}
+			if !c.Mut {
+				c.Control = func(sc *mScene) bool { return sender == "M" && sc.led != nil && sc.vIdx == 1 }
+			}
+			out = append(out, c)
 		}
 	}
 	return out
@@ -1319,6 +1374,7 @@ var msgsIndex map[string]*mcase
 func allCases() []mcase {
 	var out []mcase
 	out = append(out, proposalCases()...)
+	out = append(out, twoAssetProposalCases()...)
 	out = append(out, updateCases()...)
 	out = append(out, autoCases()...)
 	out = append(out, vfundCases()...)
